@@ -72,11 +72,12 @@ def random_scenario(rng, kind, policy=None, bind="", mapping_p=0.25, mon_p=0.4, 
     n = rng.randint(3, maxn)
     t = 0
     arr = []
+    zero = rng.random() < 0.15            # some workloads contain zero-size packets (legal: "all sizes")
     burst = rng.random() < 0.3
     for _ in range(n):
         if not (burst and len(arr) < n - 2):
             t += step * K * rng.choice([0, 0, 0, 1, 1, 2, 3, 4, 9])
-        arr.append({"t": t, "f": rng.randint(1, nf), "sz": rng.choice(sizes), "src": rng.choice([0, 1, 1, 2])})
+        arr.append({"t": t, "f": rng.randint(1, nf), "sz": 0 if (zero and rng.random() < 0.25) else rng.choice(sizes), "src": rng.choice([0, 1, 1, 2])})
     # closed-loop arrivals: handed in a few zero-delay steps after the k-th departure, i.e. inside the instant of a
     # transmission end, between the scheduler's internal steps
     for _ in range(rng.choice([0, 0, 1, 2, 3])):
